@@ -74,11 +74,18 @@ func (e *Exec) heap(s *State, name, sortS string) *Node {
 	return h
 }
 
-func (e *Exec) setHeap(s *State, name string, h *Node) {
+func (e *Exec) setHeap(s *State, name string, h *Node, at ...*Node) {
 	e.heapSorts[name] = h.Sort
 	s.heaps[name] = h
 	if e.written != nil {
 		e.written[name] = true
+		if e.writtenRefs != nil {
+			if len(at) == 0 {
+				e.writtenWhole[name] = true
+			} else {
+				e.writtenRefs[name] = append(e.writtenRefs[name], at...)
+			}
+		}
 	}
 }
 
@@ -254,7 +261,7 @@ func (e *Exec) storeObj(s *State, t types.Type, ref *Node, rootT types.Type, pre
 		name := heapNameObj(rootT, prefix+li.Path)
 		h := e.heap(s, name, arraySort(RefSort, li.Sort))
 		e.checkGuardWrite(s, name, ref)
-		e.setHeap(s, name, Store(h, ref, vs[i]))
+		e.setHeap(s, name, Store(h, ref, vs[i]), ref)
 	}
 }
 
@@ -277,7 +284,7 @@ func (e *Exec) storeElem(s *State, et types.Type, ref, idx *Node, prefix string,
 	for i, li := range ls {
 		name := heapNameArr(rootET, prefix+li.Path)
 		h := e.heap(s, name, arraySort(RefSort, arraySort(e.mode.idxSort(), li.Sort)))
-		e.setHeap(s, name, Store(h, ref, Store(Select(h, ref), idx, vs[i])))
+		e.setHeap(s, name, Store(h, ref, Store(Select(h, ref), idx, vs[i])), ref)
 	}
 }
 
@@ -417,7 +424,7 @@ func (e *Exec) writeLoc(s *State, loc Loc, val Value) {
 		for i, li := range ls {
 			name := heapNameArr(at.Elem(), li.Path)
 			h := e.heap(s, name, arraySort(RefSort, arraySort(e.mode.idxSort(), li.Sort)))
-			e.setHeap(s, name, Store(h, loc.ref, vs[i]))
+			e.setHeap(s, name, Store(h, loc.ref, vs[i]), loc.ref)
 		}
 		return
 	}
